@@ -1237,6 +1237,9 @@ class CompositeEnvelope:
         # Make sure the order of the states in tensoring is correct
         self.reorder(*states)
 
+        # Reordering combines the states if they were not in one product state yet
+        ps = [p for p in self.states if all(so in p.state_objs for so in states)][0]
+
         outcome = ps.measure_POVM(operators, *states, destructive=destructive)
         return outcome
 
@@ -1317,6 +1320,9 @@ class CompositeEnvelope:
 
         # Make sure the order of the states in tensoring is correct
         self.reorder(*states)
+
+        # Reordering combines the states if they were not in one product state yet
+        ps = [p for p in self.states if all(so in p.state_objs for so in states)][0]
 
         ps.apply_kraus(operators, *states)
 
